@@ -191,7 +191,9 @@ def run(chk, replay):
         return
     quick = chk.tier == "quick"
     chk.model("MC_Tp21_c07.tla", "MC_Tp21_c07.cfg" if quick else "MC_Tp21_c07t.cfg", timeout=3000)
-    chk.model("MC_Tp22_c07q.tla" if quick else "MC_Tp22_c07.tla", "MC_Tp22_c07q.cfg" if quick else "MC_Tp22_c07t.cfg", timeout=6000)
+    chk.model("MC_Tp22_c07q.tla" if quick else "MC_Tp22_c07.tla", "MC_Tp22_c07q.cfg" if quick else "MC_Tp22_c07.cfg", timeout=6000)
+    if not quick:      # two hostile frames: pairs over the 12 frames that address the running transfer's sessions (49 M states, ~25 min)
+        chk.model("MC_Tp22_c07.tla", "MC_Tp22_c07t.cfg", timeout=9000)
     chk.model("MC_Tp22_c07b.tla", "MC_Tp22_c07b.cfg", timeout=3000)       # control frames forged with source address 255 (F32)
     n = 150 if quick else 2500
     for dll, spec in (("j1939-21", "Tp21Trace"), ("j1939-22", "Tp22Trace")):
